@@ -1546,6 +1546,9 @@ class PooledClient:
         with self.client_pool.get_and_release(destroy_on_fail=True) as client:
             try:
                 return client.get(key, default)
+            except MemcacheIllegalInputError:
+                # a caller's mistake, not a cache failure: reported like Client does
+                raise
             except Exception:
                 if self.ignore_exc:
                     return default
@@ -1556,6 +1559,9 @@ class PooledClient:
         with self.client_pool.get_and_release(destroy_on_fail=True) as client:
             try:
                 return client.gat(key, expire, default)
+            except MemcacheIllegalInputError:
+                # a caller's mistake, not a cache failure: reported like Client does
+                raise
             except Exception:
                 if self.ignore_exc:
                     return default
@@ -1568,6 +1574,9 @@ class PooledClient:
         with self.client_pool.get_and_release(destroy_on_fail=True) as client:
             try:
                 return client.gats(key, expire, default, cas_default)
+            except MemcacheIllegalInputError:
+                # a caller's mistake, not a cache failure: reported like Client does
+                raise
             except Exception:
                 if self.ignore_exc:
                     return (default, cas_default)
@@ -1578,6 +1587,9 @@ class PooledClient:
         with self.client_pool.get_and_release(destroy_on_fail=True) as client:
             try:
                 return client.get_many(keys)
+            except MemcacheIllegalInputError:
+                # a caller's mistake, not a cache failure: reported like Client does
+                raise
             except Exception:
                 if self.ignore_exc:
                     return {}
@@ -1592,6 +1604,9 @@ class PooledClient:
         with self.client_pool.get_and_release(destroy_on_fail=True) as client:
             try:
                 return client.gets(key, default, cas_default)
+            except MemcacheIllegalInputError:
+                # a caller's mistake, not a cache failure: reported like Client does
+                raise
             except Exception:
                 if self.ignore_exc:
                     return (default, cas_default)
@@ -1602,6 +1617,9 @@ class PooledClient:
         with self.client_pool.get_and_release(destroy_on_fail=True) as client:
             try:
                 return client.gets_many(keys)
+            except MemcacheIllegalInputError:
+                # a caller's mistake, not a cache failure: reported like Client does
+                raise
             except Exception:
                 if self.ignore_exc:
                     return {}
@@ -1645,6 +1663,9 @@ class PooledClient:
         with self.client_pool.get_and_release(destroy_on_fail=True) as client:
             try:
                 return client.stats(*args)
+            except MemcacheIllegalInputError:
+                # a caller's mistake, not a cache failure: reported like Client does
+                raise
             except Exception:
                 if self.ignore_exc:
                     return {}
